@@ -23,7 +23,9 @@ endpoint names and link attribute values with backslashes, quotes and the link-f
 quoted-pairs, or bare after the '='), parameters and link attributes without a value, a `base` / link target / anchor that has
 no RFC 3986 authority, a `base` without a value, updates that name the very base the directory lists, a `base` or link
 target with characters that delimit URIs (blank, control, '<', '>', '"': the directory writes base + reference between '<'
-and '>'), and bases / relative references whose resolution (RFC 3986 5.2) has to keep an empty path segment or an empty query. The directory may
+and '>'), bases / relative references whose resolution (RFC 3986 5.2) has to keep an empty path segment or an empty query, link
+attributes (anchor, rt, if, ct, sz, title, rel, hreflang) without a value or with an empty one, and targets / anchors that are
+left, once their dot segments are removed, without authority and with a path beginning with "//". The directory may
 refuse such a write (4.00: nothing changes) or accept it; the oracle is on what the lookups say afterwards: they must be
 answered 2.05 with link-format that parses and lists exactly what the model holds (the values as they were MEANT, independent
 of any parser: oddlinkset writes the payload from the structure), and filters on such names and values must work.
@@ -44,7 +46,7 @@ TECHNIQUE = (
     "lt+grace, with valid and invalid parameters; in half of the histories also odd content (parameter names that are no parmname, values / endpoint "
     "names / link attribute values with backslashes, quotes and delimiters, parameters and link attributes without a value, base / link target / anchor without "
     "an RFC 3986 authority, base without a value, updates naming the base the directory lists, base / link target with URI-delimiting characters, bases with an empty path segment "
-    "or a query under relative references with empty segments and empty queries) and filters on those names and values; oracle = response-driven reference model keyed by (ep, d), compared after every step with endpoint lookup, "
+    "or a query or without authority under relative references with empty segments and empty queries, link attributes incl. anchor without a value or empty, targets whose dot-free path begins with '//' without authority) and filters on those names and values; oracle = response-driven reference model keyed by (ep, d), compared after every step with endpoint lookup, "
     "resource lookup and every registration resource as parsed by an independent RFC 6690 parser and RFC 3986 resolver"
 )
 LEVEL_TEXT = (
@@ -73,13 +75,13 @@ LEVEL_NOTE = (
     "re-synchronise the model to the observed state so that the rest of the history is still judged; any other difference ends the history. "
     "Odd content is judged on the lookups only, never on the response code of the write (refusing with 4.00 and accepting-and-escaping are both right); a mismatch "
     "is NAMED after the odd content of the registrations concerned (linkformat-injection/<parameter-name|parameter-value|link-attribute-value>/..., "
-    "unresolvable-uri/<base|link-target>/..., valueless-attribute/..., target-injection/<base|link-target>/..., resolution-not-rfc3986/<empty-path-segment|empty-query-reference>/...) by harness/c20_ref.py features(), which plays no part in deciding that there is a mismatch. "
+    "unresolvable-uri/<base|link-target>/..., valueless-attribute/..., target-injection/<base|link-target>/..., resolution-not-rfc3986/<empty-path-segment|empty-query-reference>/..., valueless-anchor/..., path-as-authority/...) by harness/c20_ref.py features(), which plays no part in deciding that there is a mismatch. "
     "Link sets written bare after '=' (not RFC 6690) mean what they were written from if the directory accepts them. A value-less search criterion is not generated."
 )
 RULE = (
     "one case = one history of 5-40 steps over <=4 endpoint names x <=2 sectors from <=3 registrants (plus 10 fixed scripts in shard 0); about an "
     "eighth of the steps are simple registrations (10 reactions of the registrant to the directory's fetch x 5 ways of delivering an answer). "
-    "In about half of the histories a third of the writes carry one of 43 odd parameter variants, half of the bodies / fetched link sets one of 16 odd link sets, "
+    "In about half of the histories a third of the writes carry one of 44 odd parameter variants, over half of the bodies / fetched link sets one of 23 odd link sets, "
     "one endpoint name may need escaping, every eighth update names the listed base, and half of the filtered lookups search the odd names and values. "
     "Non-trivial = the history contains a re-registration (either way), a rejected write to a live registration, an observed expiry or a request to a "
     "freed location; distinct = distinct sequences of (operation class, parameter variant, body variant or fetch reaction and delivery, response class)"
@@ -102,10 +104,12 @@ REQUIRED_MONITORS = {
     # RFC 3986 5.2 keeping an empty path segment or an empty query
     "quick": {"lookup_ep_matches_model": 15000, "lookup_res_matches_model": 15000, "registration_resource_matches_model": 25000, "unchanged_after_4xx": 6000, "location_rules": 3000, "expiry": 4000, "acceptance_pins": 30, "lookup_filter": 1500, "lookup_filter_two_criteria": 300, "pagination": 500, "simple_registration": 2500, "simple_registration_listed": 1000, "simple_registration_failed_fetch": 1000,
               "write_parameter_name_not_a_parmname": 400, "write_parameter_value_needing_escapes": 450, "write_parameter_without_value": 300, "write_base_not_a_uri": 200, "write_base_without_value": 90, "write_links_needing_escapes": 900, "write_link_attributes_without_value": 130, "write_link_target_not_a_uri": 450, "update_naming_listed_base": 400, "update_naming_listed_default_base": 300, "filter_on_name_registered_without_value": 60, "filter_on_value_needing_escapes": 220, "filter_on_value_needing_escapes_matching": 15,
-              "write_base_with_uri_delimiter": 250, "write_link_target_with_uri_delimiter": 300, "write_base_with_empty_segment_or_query": 250, "write_relative_links_with_empty_segment_or_query": 350, "resolution_with_empty_segment_or_query_listed": 300},
+              "write_base_with_uri_delimiter": 250, "write_link_target_with_uri_delimiter": 300, "write_base_with_empty_segment_or_query": 250, "write_relative_links_with_empty_segment_or_query": 350, "resolution_with_empty_segment_or_query_listed": 300,
+              "write_link_anchor_without_value": 200, "write_link_attributes_empty_or_without_value": 200, "write_link_target_path_with_leading_double_slash": 300},
     "thorough": {"lookup_ep_matches_model": 500000, "lookup_res_matches_model": 500000, "registration_resource_matches_model": 800000, "unchanged_after_4xx": 200000, "location_rules": 100000, "expiry": 120000, "acceptance_pins": 30, "lookup_filter": 50000, "lookup_filter_two_criteria": 10000, "pagination": 15000, "simple_registration": 100000, "simple_registration_listed": 40000, "simple_registration_failed_fetch": 40000,
                  "write_parameter_name_not_a_parmname": 16000, "write_parameter_value_needing_escapes": 18000, "write_parameter_without_value": 12000, "write_base_not_a_uri": 8000, "write_base_without_value": 3600, "write_links_needing_escapes": 36000, "write_link_attributes_without_value": 5200, "write_link_target_not_a_uri": 18000, "update_naming_listed_base": 16000, "update_naming_listed_default_base": 12000, "filter_on_name_registered_without_value": 2400, "filter_on_value_needing_escapes": 8800, "filter_on_value_needing_escapes_matching": 600,
-                 "write_base_with_uri_delimiter": 10000, "write_link_target_with_uri_delimiter": 12000, "write_base_with_empty_segment_or_query": 10000, "write_relative_links_with_empty_segment_or_query": 14000, "resolution_with_empty_segment_or_query_listed": 12000},
+                 "write_base_with_uri_delimiter": 10000, "write_link_target_with_uri_delimiter": 12000, "write_base_with_empty_segment_or_query": 10000, "write_relative_links_with_empty_segment_or_query": 14000, "resolution_with_empty_segment_or_query_listed": 12000,
+                 "write_link_anchor_without_value": 8000, "write_link_attributes_empty_or_without_value": 8000, "write_link_target_path_with_leading_double_slash": 12000},
 }
 
 JUDGE_LOCATION_REUSE = False  # see do_reg: count (False) or report (True) the re-use of a freed location for another (ep, d)
@@ -197,9 +201,11 @@ ODD_PV = {
     "base-empty-segment-first": (["base=coap://h.example//x/y"], "odd"),
     "base-query": (["base=coap://h.example/p/q?x=1"], "odd"),
     "base-query-dir+lt120": (["lt=120", "base=coap://h.example/p/?x=1&y"], "odd"),
+    # a base without authority: relative references that climb out of it and go on with an empty segment ("../..//y")
+    "base-no-authority": (["base=foo:/a/b/"], "odd"),
 }
 DELIMITER_PV = ["base-foreign-link", "base-gt", "base-lt+lt60", "base-quote", "base-space", "base-tab", "base-newline"]
-RESOLUTION_PV = ["base-empty-segment", "base-empty-segment-last+lt60", "base-empty-segment-first", "base-query", "base-query-dir+lt120", "base-path", "base-tcp", "lt60+base", "base-comma"]
+RESOLUTION_PV = ["base-empty-segment", "base-empty-segment-last+lt60", "base-empty-segment-first", "base-query", "base-query-dir+lt120", "base-no-authority", "base-path", "base-tcp", "lt60+base", "base-comma"]
 REG_PV.update(ODD_PV)
 REG_ODD = list(ODD_PV)
 REG_VALID = [k for k, v in REG_PV.items() if v[1] == "valid"]
@@ -289,7 +295,10 @@ def linkset(i, tag):
 #        "lenient-target" = a target with a character that delimits a URI ('<', '"', blank, control; '>' cannot be written at
 #        all) -- not RFC 6690 either, refused or taken as written.
 # Sets 13-15 are plain RFC 6690: relative references whose resolution (RFC 3986 5.2) meets empty path segments and queries.
-NODDLINKS = 16
+# Sets 16-19: attributes without a value or with an empty one, `anchor` among them (RFC 6690 leaves link-extension values optional;
+# parameter names are case-insensitive, RFC 8288 3). Sets 20-22: targets whose path begins with "//" once dot segments are removed
+# although there is no authority (see c20_ref.resolve).
+NODDLINKS = 23
 
 
 def oddlinkset(i, tag):
@@ -312,6 +321,13 @@ def oddlinkset(i, tag):
         ([("%s/a//b" % t, (("rt", "x"),)), ("/%s/abs//kept" % t, ())], "quoted"),
         ([("%s//" % t, ()), ("./%s/c//d/../e" % t, (("anchor", "s//%s" % t), ("rel", "hosts"))), ("?y=%s" % t, ())], "quoted"),
         ([("%s/status" % t, (("rt", "temperature-c"),)), ("", (("rt", "self"),)), ("?", ()), ("../%s/up" % t, (("anchor", "a>b"),))], "quoted"),
+        ([("/%s/ok" % t, (("rt", "temperature-c"),)), ("/%s/va" % t, (("anchor", None),))], "quoted"),
+        ([("/%s/vA" % t, (("rt", "x"), ("Anchor", None), ("rel", "hosts")))], "quoted"),
+        ([("/%s/ea" % t, (("anchor", ""), ("rel", "hosts"))), ("%s/eb" % t, (("rel", ""), ("anchor", "")))], "quoted"),
+        ([("/%s/vl" % t, (("ct", None), ("sz", None), ("rel", None), ("hreflang", None), ("title", ""), ("rt", ""), ("if", ""))), ("/%s/vm" % t, (("rt", "light-lux"), ("ct", ""), ("sz", ""), ("hreflang", ""), ("title*", None)))], "quoted"),
+        ([("/%s/ok" % t, (("rt", "ext"),)), ("foo:/a/..//%s/x" % t, (("rt", "x"),))], "quoted"),
+        ([("foo:/.//[%s" % t, ())], "quoted"),
+        ([("../..//%s/y" % t, (("rt", "x"),)), ("/%s/z" % t, (("anchor", "bar:/.//%s/./w" % t), ("rel", "hosts")))], "quoted"),
     ]
     meant, how = sets[i]
     out = []
@@ -364,7 +380,7 @@ def plan(tier, seed):
 
 
 def gen_body(r, ver, odd=False):
-    if odd and r.random() < 0.5:
+    if odd and r.random() < 0.6:
         return ["odd", r.randrange(NODDLINKS), ver]
     x = r.random()
     if x < 0.80:
@@ -381,7 +397,7 @@ def gen_body(r, ver, odd=False):
 def gen_react(r, ver, odd=False):
     """-> (reaction of the registrant to the directory's fetch, delivery mode, delay of a separate response)"""
     x = r.random()
-    if odd and r.random() < 0.42:
+    if odd and r.random() < 0.5:
         react = ["odd", r.randrange(NODDLINKS), ver]
     elif x < 0.50:
         react = ["links", r.randrange(NLINKSETS), ver]
@@ -458,11 +474,11 @@ def gen(r):
                 pv = "lt-novalue"
             shape = "ok" if r.random() < 0.88 else r.choice(["ep-missing", "ep-repeated", "d-repeated", "ep-novalue"])
             body = gen_body(r, i, odd)
-            if body[0] == "odd" and body[1] >= 13 and r.random() < 0.5:
+            if body[0] == "odd" and (13 <= body[1] <= 15 or body[1] == 22) and r.random() < 0.5:
                 pv = r.choice(RESOLUTION_PV)  # relative references meet a base with a path worth resolving against
-            elif (pv in RESOLUTION_PV[:5] or pv in DELIMITER_PV) and r.random() < 0.5:
+            elif (pv in RESOLUTION_PV[:6] or pv in DELIMITER_PV) and r.random() < 0.5:
                 # (a base's path only shows in the targets of relative references)
-                body = r.choice([["odd", r.randrange(13, 16), i], ["links", 2, i]])
+                body = r.choice([["odd", r.choice([13, 14, 15, 22]), i], ["links", 2, i]])
             steps.append({"op": "reg", "peer": r.randrange(npeers), "ep": r.randrange(neps), "d": r.randrange(nsect), "shape": shape, "pv": pv, "body": body})
         elif x < 0.52:
             y = r.random()
@@ -483,8 +499,8 @@ def gen(r):
             if oddpv:
                 pv = r.choice(UPD_ODD)
             body = gen_body(r, i, odd)
-            if body[0] == "odd" and body[1] >= 13 and r.random() < 0.4:
-                pv = r.choice(RESOLUTION_PV[:5])
+            if body[0] == "odd" and (13 <= body[1] <= 15 or body[1] == 22) and r.random() < 0.4:
+                pv = r.choice(RESOLUTION_PV[:6])
             steps.append({"op": "put", "peer": r.randrange(npeers), "tgt": gen_target(r, neps, nsect), "pv": pv, "body": body})
         elif x < 0.68:
             steps.append({"op": "del", "peer": r.randrange(npeers), "tgt": gen_target(r, neps, nsect)})
@@ -715,6 +731,36 @@ FIXED = {
         {"op": "reg", "peer": 0, "ep": 0, "d": 0, "shape": "ok", "pv": "lt60", "body": _L(0)},
         {"op": "put", "peer": 0, "tgt": ["key", 0, 0], "pv": "none", "body": ["odd", 15, 1]},
     ],
+    "w-anchor-without-value": [
+        {"op": "reg", "peer": 0, "ep": 0, "d": 0, "shape": "ok", "pv": "plain", "body": _L(0)},
+        {"op": "reg", "peer": 1, "ep": 1, "d": 0, "shape": "ok", "pv": "lt60", "body": ["odd", 16, 0]},
+    ],
+    "w-anchor-without-value-put": [
+        {"op": "reg", "peer": 0, "ep": 0, "d": 0, "shape": "ok", "pv": "plain", "body": _L(0)},
+        {"op": "put", "peer": 0, "tgt": ["key", 0, 0], "pv": "none", "body": ["odd", 17, 1]},
+    ],
+    "w-anchor-without-value-simple": [
+        {"op": "reg", "peer": 0, "ep": 0, "d": 0, "shape": "ok", "pv": "plain", "body": _L(0)},
+        _S(1, 1, 0, "lt60", ["odd", 16, 0]),
+    ],
+    "w-attributes-empty-or-without-value": [
+        {"op": "reg", "peer": 0, "ep": 0, "d": 0, "shape": "ok", "pv": "plain", "body": ["odd", 18, 0]},
+        {"op": "reg", "peer": 1, "ep": 1, "d": 0, "shape": "ok", "pv": "base-path", "body": ["odd", 19, 0]},
+        {"op": "lookup", "kind": "res", "q": ["crit", "rt-exact", 1], "peer": 0, "szx": None},
+        {"op": "lookup", "kind": "ep", "q": ["crit", "if", 0], "peer": 0, "szx": None},
+    ],
+    "w-path-as-authority": [
+        {"op": "reg", "peer": 0, "ep": 0, "d": 0, "shape": "ok", "pv": "plain", "body": _L(0)},
+        {"op": "reg", "peer": 1, "ep": 1, "d": 0, "shape": "ok", "pv": "plain", "body": ["odd", 20, 0]},
+    ],
+    "w-path-as-authority-unsplittable": [
+        {"op": "reg", "peer": 0, "ep": 0, "d": 0, "shape": "ok", "pv": "plain", "body": _L(0)},
+        {"op": "reg", "peer": 1, "ep": 1, "d": 0, "shape": "ok", "pv": "plain", "body": ["odd", 21, 0]},
+    ],
+    "w-path-as-authority-relative": [
+        {"op": "reg", "peer": 0, "ep": 0, "d": 0, "shape": "ok", "pv": "plain", "body": _L(0)},
+        {"op": "reg", "peer": 1, "ep": 1, "d": 0, "shape": "ok", "pv": "base-no-authority", "body": ["odd", 22, 0]},
+    ],
     "w-odd-update-base-without-value": [
         {"op": "reg", "peer": 0, "ep": 0, "d": 0, "shape": "ok", "pv": "lt60", "body": _L(0)},
         {"op": "put", "peer": 0, "tgt": ["key", 0, 0], "pv": "lt180+base-novalue", "body": _L(1, 1)},
@@ -742,14 +788,14 @@ def write_dims(pv, table, body):
             out.append("write_base_without_value")
         elif cls == "odd" and pv.split("+")[0] in ("base-foreign-link", "base-gt", "base-lt", "base-quote", "base-space", "base-tab", "base-newline"):
             out.append("write_base_with_uri_delimiter")
-        elif cls == "odd" and (pv.startswith("base-empty-segment") or pv.startswith("base-query")):
+        elif cls == "odd" and (pv.startswith("base-empty-segment") or pv.startswith("base-query") or pv == "base-no-authority"):
             out.append("write_base_with_empty_segment_or_query")
         elif pv == "base-comma":
             pass
         elif cls == "odd" and "base-" in pv:
             out.append("write_base_not_a_uri")
     if body is not None and body[0] == "odd":
-        out.append("write_links_needing_escapes" if body[1] <= 5 else "write_link_attributes_without_value" if body[1] == 6 else "write_link_target_not_a_uri" if body[1] <= 9 else "write_link_target_with_uri_delimiter" if body[1] <= 12 else "write_relative_links_with_empty_segment_or_query")
+        out.append("write_links_needing_escapes" if body[1] <= 5 else "write_link_attributes_without_value" if body[1] == 6 else "write_link_target_not_a_uri" if body[1] <= 9 else "write_link_target_with_uri_delimiter" if body[1] <= 12 else "write_relative_links_with_empty_segment_or_query" if body[1] <= 15 else "write_link_anchor_without_value" if body[1] <= 17 else "write_link_attributes_empty_or_without_value" if body[1] <= 19 else "write_link_target_path_with_leading_double_slash")
     return out
 
 
@@ -1227,6 +1273,11 @@ class Runner:
         "empty-query-reference": "a reference with an empty query ('?') was resolved against the registration base",
     }
 
+    NEW_TEXT = {
+        "valueless-anchor": "a link whose anchor attribute has no value was accepted",
+        "path-as-authority": "a link whose target or anchor, once its dot segments are removed, has no authority and a path beginning with '//' was accepted (written out as it is the first path segment reads as an authority)",
+    }
+
     def attribute(self, mm, obs, model=None):
         """Name a mismatch after the odd content of the registrations concerned. -> (key, text) | None.
         Only naming: that there IS a violation was decided by the comparison with the model."""
@@ -1258,6 +1309,9 @@ class Runner:
         for r in involved:
             feats |= ref.features(r)
         if sym == "fails":
+            for f in ("valueless-anchor", "path-as-authority"):
+                if f in feats:
+                    return "%s/%s-fails" % (f, which), "%s; the %s now answers %s" % (self.NEW_TEXT[f], which.replace("lookup-ep", "endpoint lookup").replace("lookup-res", "resource lookup").replace("regres", "registration resource"), d.get("error") or d.get("got"))
             for f in ("base", "link-target"):
                 if f in feats:
                     return "unresolvable-uri/%s/%s-fails" % (f, which), "%s; the %s now answers %s" % (self.URI_TEXT[f], which.replace("lookup-ep", "endpoint lookup").replace("lookup-res", "resource lookup").replace("regres", "registration resource"), d.get("error") or d.get("got"))
@@ -1267,6 +1321,9 @@ class Runner:
                 if f in feats and (f != "delimiter-in-base" or which == "lookup-res"):
                     return "target-injection/%s/%s-%s" % (name, which, sym), "%s; the %s %s" % (self.TGT_TEXT[name], which.replace("lookup-res", "resource lookup").replace("regres", "registration resource"), "is no link-format any more" if sym == "unparsable" else "lists other links than were registered")
         if which == "lookup-res" and sym == "wrong-entries":
+            for f in ("path-as-authority", "valueless-anchor"):
+                if f in feats:
+                    return "%s/lookup-res-wrong-entries" % f, "%s; the resource lookup lists other links than were registered" % self.NEW_TEXT[f]
             for f in ("empty-path-segment", "empty-query-reference"):
                 if f in feats:
                     return "resolution-not-rfc3986/%s/lookup-res-wrong-entries" % f, "%s; the resource lookup lists other targets or anchors than RFC 3986 5.2 gives" % self.RES_TEXT[f]
@@ -1286,6 +1343,9 @@ class Runner:
         if not isinstance(got, list):
             err = str(got)
             if err.startswith("code "):
+                for f in ("valueless-anchor", "path-as-authority"):
+                    if f in feats:
+                        return "%s/lookup-%s-fails" % (f, kind), "%s; a filtered lookup now answers %s" % (self.NEW_TEXT[f], err[5:])
                 if any(n in ref.valueless_names(r) for r in live for n in names):
                     return "valueless-attribute/lookup-%s-fails" % kind, "a lookup filtering on a name that some registration carries as a parameter or link attribute WITHOUT a value (RFC 6690 4.1: it then matches no value) is answered %s" % err[5:]
                 for f in ("base", "link-target"):
